@@ -69,6 +69,8 @@ type Conn struct {
 	writeBuf       []byte
 	writeHeaderBuf [8]byte
 	writeHeader    header
+	// closeSent is set once a close frame has been written; protected by writeFrameMu.
+	closeSent bool
 
 	closeReadMu   sync.Mutex
 	closeReadCtx  context.Context
